@@ -6,7 +6,9 @@ SIGMA = [("plain", "a"), ("dash", "a-b"), ("space", "a b"), ("digit-first", "1a"
          ("backslash", "\\"), ("trailing-backslash", "b\\"), ("apostrophe", "'"), ("backtick", "`"), ("template", "${x}"),
          ("comment-end", "*/"), ("comment-start", "/*"), ("line-comment", "//"), ("newline", "a\nb"), ("tab", "a\tb"),
          ("latin", "é"), ("cjk", "日本"), ("dollar", "$"), ("underscore", "_"), ("constructor", "constructor"), ("proto", "__proto__"),
-         ("unicode-escape-like", "\\u0041"), ("crlf", "a\r\nb"), ("nul", "a\0b")]
+         ("unicode-escape-like", "\\u0041"), ("crlf", "a\r\nb"), ("nul", "a\0b"),
+         ("at-first", "@type"), ("dash-first", "-x"), ("hash", "#"), ("dot-inside", "a.b"), ("slash-inside", "a/b"), ("leading-space", " a"),
+         ("digit-only", "0"), ("non-ascii-word", "ünï"), ("dollar-first", "$ref"), ("colon", "a:b"), ("question-mark", "a?")]
 
 
 def rs(s):
